@@ -12,6 +12,13 @@ void env_on_write(uint8_t) {}
 #ifndef NNMAX
 #define NNMAX 6
 #endif
+#ifndef IDLEN0
+#define IDLEN0 1
+#define IDLEN1 2
+#endif
+#ifndef ALEN
+#define ALEN 2
+#endif
 static bool refMaster(uint8_t a) {
   uint8_t l = a & 0x0f, h = a >> 4;
   bool lo = l == 0 || l == 1 || l == 3 || l == 7 || l == 15, hi = h == 0 || h == 1 || h == 3 || h == 7 || h == 15;
@@ -22,39 +29,39 @@ struct Reg { bool ok; uint8_t src, dst, pb, sb, idLen, id[4]; uint8_t alen; uint
 extern "C" void vp_main() {
   ebus_protocol_config_t cfg = env_config();
   cfg.answer = true;
-  TapeTransport* tr = new TapeTransport();
-  PlainDevice* dev = new PlainDevice(tr);
+  // static (typed) objects instead of heap objects: CBMC's points-to sets are field-insensitive for dynamic objects, which
+  // makes every pointer loaded from a heap-allocated handler "point to" everything the handler references
+  static TapeTransport trs;
+  static PlainDevice devs(&trs);
   static RecListener lst;
-  DirectProtocolHandler& h = *new DirectProtocolHandler(cfg, dev, &lst);
+  static DirectProtocolHandler h(cfg, &devs, &lst);
   Reg reg[NREG];
   for (int i = 0; i < NREG; i++) {
     Reg& g = reg[i];
     g.src = vp_nondet_u8(); g.dst = vp_nondet_u8(); g.pb = vp_nondet_u8(); g.sb = vp_nondet_u8();
-    g.idLen = vp_nondet_u8();
-    vp_assume(g.idLen <= 4);
+    // the structure (ID lengths, telegram length) is a job parameter: concrete sizes keep every container loop bounded exactly
+    g.idLen = i == 0 ? (IDLEN0) : (IDLEN1);
     for (int k = 0; k < 4; k++) g.id[k] = vp_nondet_u8();
     // answer: slave answers are complete "NN data" strings (NN <= 2), MM "answers" only carry the expected tail length
-    g.alen = vp_nondet_u8();
-    vp_assume(g.alen >= 1 && g.alen <= 3);
+    g.alen = ALEN;
     SlaveSymbolString a;
     a.m_data.reserve(8);
     for (int k = 0; k < 3; k++) { g.ans[k] = vp_nondet_u8(); }
     g.ans[0] = static_cast<uint8_t>(g.alen - 1);
-    for (int k = 0; k < 3; k++) if (k < g.alen) a.push_back(g.ans[k]);
+    for (int k = 0; k < ALEN; k++) a.push_back(g.ans[k]);
     g.ok = h.setAnswer(g.src, g.dst, g.pb, g.sb, g.id, g.idLen, a);
     // documented registration rule: valid non-broadcast destination, source SYN (= any) or a master
     bool refOk = g.dst != 0xAA && g.dst != 0xA9 && g.dst != 0xFE && (g.src == 0xAA || refMaster(g.src));
     vp_assert("registration-accepted-iff-valid-addresses", g.ok == refOk);
   }
   // received telegram (CRC already checked by the caller)
-  uint8_t nn = vp_nondet_u8();
-  vp_assume(nn <= NNMAX);
+  const uint8_t nn = NNMAX;
   uint8_t t[5 + NNMAX];
   for (int k = 0; k < 5 + NNMAX; k++) t[k] = vp_nondet_u8();
   t[4] = nn;
   vp_assume(refMaster(t[0]) && t[1] != 0xAA && t[1] != 0xA9 && t[1] != t[0]);
   h.m_command.m_data.reserve(5 + NNMAX + 2);
-  for (int k = 0; k < 5 + NNMAX; k++) if (k < 5 + nn) h.m_command.push_back(t[k]);
+  for (int k = 0; k < 5 + NNMAX; k++) h.m_command.push_back(t[k]);
   h.m_response.m_data.reserve(8);
   vp_known("KF-C15-NN-GT4-SHIFT", nn > 4);
   bool found = h.getAnswer();
